@@ -7,6 +7,8 @@
 //!                  l1_0 / l1_4  top of book of instrument 0 / 4
 //!                  lt_0 / lt_4  last traded price of instrument 0 / 4
 //!                  ord_c1 / ord_c2  open-order details of c1 (instrument 0) / c2 (instrument 4)
+//!                  ord_c3 / ord_c4  ... of c3 (instrument 0 as well) / c4 (instrument 1, same exchange):
+//!                                   a full snapshot that lists one of them says nothing about the others
 //! A message {item,t,v} becomes a real BalanceSnapshot / OrderSnapshot / full account Snapshot
 //! (two account items in one list) / market Trade / OrderBookL1 event, delivered through
 //! `EngineState::update_from_account|update_from_market` (via=state) or `Engine::process`
@@ -38,7 +40,7 @@ use rust_decimal::Decimal;
 use serde_json::{Value, json};
 use vh::{engine_kit::*, util::*, world2};
 
-const ITEMS: [&str; 8] = ["bal0", "bal4", "l1_0", "l1_4", "lt_0", "lt_4", "ord_c1", "ord_c2"];
+const ITEMS: [&str; 10] = ["bal0", "bal4", "l1_0", "l1_4", "lt_0", "lt_4", "ord_c1", "ord_c2", "ord_c3", "ord_c4"];
 const ORDER_QTY: i64 = 100; // reports are partial fills: the order stays tracked (lifecycle is C01's)
 
 fn item_target(item: &str) -> (String, usize) {
@@ -46,7 +48,8 @@ fn item_target(item: &str) -> (String, usize) {
     match k.as_str() {
         "bal" => ("bal".into(), n.parse().unwrap()),
         "l1" | "lt" => (k, n.parse().unwrap()),
-        "ord" => ("ord".into(), if n == "c1" { 0 } else { 4 }),
+        // c1 and c3 on instrument 0, c4 on instrument 1 (same exchange), c2 on instrument 4 (the other exchange)
+        "ord" => ("ord".into(), match n.as_str() { "c1" | "c3" => 0, "c4" => 1, _ => 4 }),
         _ => usage("bad item"),
     }
 }
@@ -121,15 +124,31 @@ fn events_of(ms: &[Value]) -> Vec<(Vec<Value>, EngineEvent<DataKind>)> {
         // applied by the engine as: balances in order, then instruments in order
         let bals: Vec<&Value> = ms.iter().filter(|m| item_target(s(m, "item")).0 == "bal").collect();
         let ords: Vec<&Value> = ms.iter().filter(|m| item_target(s(m, "item")).0 == "ord").collect();
-        let applied: Vec<Value> = bals.iter().chain(ords.iter()).map(|m| (*m).clone()).collect();
         let ex = exchange_of(&ms[0]);
+        // reports about orders of one instrument are listed in that instrument's group (groups in order of
+        // first mention); when the time stamps sum to an odd number the snapshot also lists the exchange's
+        // other instruments, without reports - it says nothing about the orders it does not list
+        let mut groups: Vec<(usize, Vec<&Value>)> = vec![];
+        for m in &ords {
+            let inst = item_target(s(m, "item")).1;
+            match groups.iter_mut().find(|g| g.0 == inst) {
+                Some(g) => g.1.push(m),
+                None => groups.push((inst, vec![m])),
+            }
+        }
+        let applied: Vec<Value> = bals.iter().map(|m| (*m).clone()).chain(groups.iter().flat_map(|g| g.1.iter().map(|m| (**m).clone()))).collect();
+        if ms.iter().map(|m| i(m, "t")).sum::<i64>() % 2 == 1 {
+            for inst in (0..world2::N_INST).filter(|n| world2::EX_OF[*n] == ex) {
+                if groups.iter().all(|g| g.0 != inst) {
+                    let at = if inst % 2 == 0 { 0 } else { groups.len() };
+                    groups.insert(at, (inst, vec![]));
+                }
+            }
+        }
         let snap = AccountSnapshot {
             exchange: ExchangeIndex(ex),
             balances: bals.iter().map(|m| balance_of(m)).collect(),
-            instruments: ords.iter().map(|m| {
-                let o = order_of(m);
-                InstrumentAccountSnapshot { instrument: o.key.instrument, orders: vec![o] }
-            }).collect(),
+            instruments: groups.iter().map(|(inst, os)| InstrumentAccountSnapshot { instrument: InstrumentIndex(*inst), orders: os.iter().map(|m| order_of(m)).collect() }).collect(),
         };
         return vec![(applied, account_event(ex, AccountEventKind::Snapshot(snap)))];
     }
@@ -298,7 +317,7 @@ fn main() {
                     d.reset();
                 }
                 if rng.random_range(0..8) == 0 {
-                    d.touch(if rng.random_bool(0.5) { "ord_c1" } else { "ord_c2" });
+                    d.touch(["ord_c1", "ord_c2", "ord_c3", "ord_c4"][rng.random_range(0..4)]);
                     steps += 1;
                     continue;
                 }
